@@ -99,8 +99,10 @@ structure ClusterConfig where
   servers : Nat              -- number of servers
   deriving Repr
 
-/-- the ensemble supplier is an arbitrary function that may fail -/
-abbrev Supplier := NsConfig → ClusterStatus → Option (List Nat)
+/-- the ensemble supplier is an arbitrary function that may fail; it may depend on what it is asked for, on the
+    status under construction and on which shard of the namespace (0, 1, ...) the ensemble is for: the real supplier
+    looks at the cluster as it is at that moment -/
+abbrev Supplier := NsConfig → ClusterStatus → Nat → Option (List Nat)
 
 /-- create the shards of one new namespace; a shard whose ensemble selection fails is skipped
     (`continue`) — `skipFailed` is the fact read from the source -/
@@ -109,7 +111,7 @@ def newNamespace (sup : Supplier) (cfg : ClusterConfig) (st : ClusterStatus) (nc
   | none => st          -- (the Go code panics on a zero shard count; outside the property's quantifier)
   | some shards =>
     let (metas, idx) := shards.foldl (fun (acc : List ShardMeta × Nat) sh =>
-      match sup nc { st with serverIdx := acc.2 } with
+      match sup nc { st with serverIdx := acc.2 } (sh.id - st.gen).toNat with
       | none => acc
       | some ens =>
         (acc.1 ++ [{ id := sh.id, status := .unknown, ensemble := ens, min := sh.min, max := sh.max }],
